@@ -17,6 +17,10 @@ using iora::core::ThreadPool;
 // it decided to spawn is created — a legal pre-emption point — so that "spawn decided, worker not
 // yet registered" overlaps stop()/drain(). Not compiled under TSan (it owns pthread_create there).
 static thread_local uint32_t tlsCreateDelayUs = 0;
+// pre-lock delay: a flagged (submitter) thread is held just BEFORE it acquires a mutex, i.e. between
+// a lock-free check and the critical section that follows it
+static thread_local uint32_t tlsPreLockDelayUs = 0;
+static std::atomic<uint64_t> gPreLockDelays{0};
 static std::atomic<uint64_t> gCreateDelays{0};
 // ---- pthread_mutex_unlock interposer (harness-local): pool worker threads (every thread that is
 // not a harness thread) are occasionally held right AFTER releasing a mutex — e.g. between taking a
@@ -44,6 +48,13 @@ extern "C" int pthread_mutex_unlock(pthread_mutex_t *m)
     if (vf::shim::mix(n) % 23 == 0) { gUnlockDelays.fetch_add(1, std::memory_order_relaxed); vf::shim::rawSleepUs(d); }
   }
   return r;
+}
+extern "C" int pthread_mutex_lock(pthread_mutex_t *m)
+{
+  using Fn = int (*)(pthread_mutex_t *);
+  static Fn real = vf::shim::real<Fn>("pthread_mutex_lock");
+  if (tlsPreLockDelayUs) { gPreLockDelays.fetch_add(1, std::memory_order_relaxed); vf::shim::rawSleepUs(tlsPreLockDelayUs); }
+  return real(m);
 }
 extern "C" int pthread_create(pthread_t *t, const pthread_attr_t *a, void *(*fn)(void *), void *arg)
 {
@@ -158,7 +169,7 @@ static bool runScenario(uint64_t seed, uint64_t idx)
   if (pattern == 3) { nSub = int(rng.range(1, 4)); perSub = int(rng.range(10, 40)); }
   if (pattern == 0 && rng.chance(0.5)) idleMs = 500; // keep an overshoot visible to the sampler
   int shutdownKind = int(rng.below(4)); // 0 destructor 1 stop() 2 drain()+stop() 3 stop() racing submitters (pattern 2 forces 3)
-  if (pattern == 2) shutdownKind = 3;
+  if (pattern == 2) shutdownKind = rng.chance(0.5) ? 3 : 4; // 4: direct shutdown() racing submitters
   else if (shutdownKind == 3) shutdownKind = 1;
   size_t planned = size_t(nSub) * perSub;
   S->childBase = planned;
@@ -209,8 +220,9 @@ static bool runScenario(uint64_t seed, uint64_t idx)
         else { uint64_t x = r.below(20); kind = x < 9 ? QUICK : x < 13 ? SLEEP : x < 16 ? THROW : x < 19 ? NEST : (useLatch ? LATCH : QUICK); }
         // racing stop(): hold some submitters between "spawn decided" and "worker created"
         tlsCreateDelayUs = (pattern == 2 && r.chance(0.25)) ? uint32_t(r.range(5000, 90000)) : 0;
+        tlsPreLockDelayUs = (pattern == 2 && r.chance(0.5)) ? uint32_t(r.range(20, 600)) : 0;
         submit(S, id, api, kind, r.next());
-        tlsCreateDelayUs = 0;
+        tlsCreateDelayUs = 0; tlsPreLockDelayUs = 0;
         if (pattern == 3) vf::sleepMs(double(idleMs) * (0.5 + 0.1 * double(r.below(10))));
         else if (r.chance(0.1)) vf::sleepMs(0.02 * double(r.below(30)));
       }
@@ -218,7 +230,7 @@ static bool runScenario(uint64_t seed, uint64_t idx)
     });
 
   // after the burst: look at the thread count, then release latched tasks
-  if (shutdownKind != 3)
+  if (shutdownKind < 3)
   {
     while (subsDone.load() < nSub) vf::sleepMs(0.1);
     // tight bursts: watch the thread count for a moment; otherwise (half of the time) go straight
@@ -233,7 +245,7 @@ static bool runScenario(uint64_t seed, uint64_t idx)
   }
   else vf::sleepMs(0.05 * double(rng.below(100)));
   S->latch = true;
-  if (shutdownKind != 3) for (auto &t : subs) t.join();
+  if (shutdownKind < 3) for (auto &t : subs) t.join();
   sampling = false; sampler.join();
 
   // ---- shutdown under a watchdog
@@ -258,6 +270,7 @@ static bool runScenario(uint64_t seed, uint64_t idx)
   if (rng.chance(0.5)) gHoldNextUnlockUs = uint32_t(rng.range(230000, 330000));
   S->stopBeganNs = vf::nowNs();
   if (shutdownKind == 0) { delete S->pool; S->pool = nullptr; }
+  else if (shutdownKind == 4) S->pool->shutdown();
   else
   {
     if (shutdownKind == 2) { auto dr = S->pool->drain(60000); if (!dr.success) { stopOk = false; stopMsg = "drain: " + dr.message; } }
@@ -266,7 +279,7 @@ static bool runScenario(uint64_t seed, uint64_t idx)
   }
   S->fenceNs = vf::nowNs();
   shutdownDone = true; wd.join();
-  if (shutdownKind == 3) for (auto &t : subs) t.join();
+  if (shutdownKind >= 3) for (auto &t : subs) t.join();
   // operations after stop must be refused cleanly
   int lateRefusedOk = 0;
   if (S->pool)
@@ -354,7 +367,7 @@ static bool runScenario(uint64_t seed, uint64_t idx)
 
   O.obs("scenarios"); O.obs("tasks_accepted", accepted); O.obs("tasks_refused", refused); O.obs("tasks_throwing", thrown);
   O.obs("late_submission_refused_cleanly", lateRefusedOk);
-  O.obs(std::string("shutdown_kind_") + (shutdownKind == 0 ? "destructor" : shutdownKind == 1 ? "stop" : shutdownKind == 2 ? "drain_stop" : "stop_racing_submitters"));
+  O.obs(std::string("shutdown_kind_") + (shutdownKind == 0 ? "destructor" : shutdownKind == 1 ? "stop" : shutdownKind == 2 ? "drain_stop" : shutdownKind == 3 ? "stop_racing_submitters" : "shutdown_racing_submitters"));
   O.obs(std::string("pattern_") + (pattern == 0 ? "tight_burst" : pattern == 1 ? "streams" : pattern == 2 ? "stop_race" : "idle_exit_race"));
   O.obsMax("max_concurrent_workers_seen", uint64_t(S->hwRunning.load()));
   if (size_t(S->hwRunning.load()) == S->maxT) O.obs("scenarios_reaching_max_threads");
@@ -381,6 +394,7 @@ int main(int argc, char **argv)
 #if !VF_TSAN
   O.obs("condvar_prepark_delays", vf::shim::condvarPolicy().delayed);
   O.obs("thread_create_delays", gCreateDelays.load());
+  O.obs("submitter_pre_lock_delays", gPreLockDelays.load());
   O.obs("worker_post_unlock_delays", gUnlockDelays.load());
   O.obs("worker_long_holds_during_teardown", gLongHolds.load());
 #endif
